@@ -28,12 +28,16 @@ type spec struct {
 	handler string   // flowing only: "silent" | "recv" | "flood" | "echo"
 	ops     []string // operations started in this order, each on its own goroutine
 	variant string   // "q": cancel after quiescence; "r": canceller races the operations
+	prelude bool     // an earlier RPC on the connection ended by itself just as its context was cancelled
 }
 
 func (s spec) String() string {
 	t := "flowing/" + s.handler
 	if s.stalled {
 		t = "stalled"
+	}
+	if s.prelude {
+		t = "after a cleanly cancelled rpc, " + t
 	}
 	return fmt.Sprintf("%s ops=%s %s", t, strings.Join(s.ops, ","), s.variant)
 }
@@ -91,6 +95,15 @@ func scenario(cfg wl.Config, sp spec) *mc.Scenario {
 		env := wl.NewEnv(cfg, handlerFor(sp.handler))
 		if sp.stalled {
 			env.Cli.StallInit()
+		}
+		if sp.prelude {
+			// the RPC under test is not the first on its connection: the one before it finished by
+			// itself at the moment its context was cancelled
+			pctx, pcancel := context.WithCancel(context.Background())
+			if s, err := env.Conn.NewStream(pctx, "/pre", enc.Bytes{}); err == nil {
+				_ = s.Close()
+				wl.Cancel(pcancel)
+			}
 		}
 		ctx, cancel := context.WithCancel(context.Background())
 		res := make([]*opRes, len(sp.ops))
@@ -352,6 +365,16 @@ func basePlans(tier string) []mc.Plan {
 						}
 						ps = append(ps, mc.Plan{Scen: scenario(cfg, spec{stalled: stalled, handler: h, ops: ops, variant: v}), Bounds: bounds, Split: len(bounds) > 2})
 					}
+				}
+			}
+		}
+	}
+	for _, soft := range []bool{false, true} {
+		for _, h := range []string{"silent", "echo"} {
+			for _, ops := range [][]string{{"invoke"}, {"recv"}, {"send", "recv"}} {
+				for _, v := range []string{"q", "r"} {
+					cfg := wl.Config{Soft: soft, Pipe: tr.Options{Cap: -1}}
+					ps = append(ps, mc.Plan{Scen: scenario(cfg, spec{handler: h, ops: ops, variant: v, prelude: true}), Bounds: []int{0, 1}})
 				}
 			}
 		}
